@@ -1,7 +1,7 @@
 (* C11 — S5 for Ridler-Calvard and MCT, partial: the iteration / final formula keep the threshold between
    the smallest and largest value once it is there. *)
 From Coq Require Import ZArith QArith Qabs List Bool Lia Lqa.
-From Centro Require Import Model.RidlerQ.
+From Centro Require Import Model.OtsuQ Model.RidlerQ Proofs.OtsuProofs.
 Import ListNotations.
 Open Scope Q_scope.
 
@@ -78,3 +78,19 @@ Proof.
   split; [eexists; split; [vm_compute; reflexivity|vm_compute; reflexivity]|]. intros x H. cbn in H.
   repeat (destruct H as [H|H]; [subst; split; unfold Qle; cbn; lia|]). destruct H.
 Qed.
+
+(* the whole model loop: initial value otsu(im), then the iteration; for every fuel, every delta, every data *)
+Theorem rc_model_bracket_lemma fuel delta data lo hi t :
+  data <> [] -> (forall x, In x data -> (lo <= x <= hi)%Z) ->
+  rc_model fuel delta data = Some t -> inject_Z lo <= t /\ t <= inject_Z hi.
+Proof.
+  intros Hne Hall H. unfold rc_model in H.
+  eapply (rc_iter_bracket_partial_lemma fuel delta (inject_Z lo) (inject_Z hi) (map inject_Z data)); [| |exact H].
+  - intros x Hx. apply in_map_iff in Hx. destruct Hx as [z [E Hz]]. subst x.
+    rewrite <- !Zle_Qle. apply Hall. exact Hz.
+  - apply otsu_bracket_lemma.
+    + destruct data; [congruence|]. cbn. discriminate.
+    + intros x Hx. apply in_map_iff in Hx. destruct Hx as [z [E Hz]]. inversion E; subst. apply Hall. exact Hz.
+Qed.
+Example ex_rc_model : exists t, rc_model 50 (1 # 100) [0; 10; 20; 80; 90; 100]%Z = Some t /\ t == 50 # 1.
+Proof. eexists. split; vm_compute; reflexivity. Qed.
